@@ -2,11 +2,13 @@
 
 pub mod common;
 pub mod f;
+pub mod g;
 pub mod l;
 pub mod r;
 pub mod r0;
 pub mod reload;
 pub mod rmodel;
+pub mod w;
 
 use serde::{Deserialize, Serialize};
 
@@ -20,6 +22,8 @@ pub enum Scenario {
     R0(r0::Scn),
     L(l::Scn),
     Reload(reload::Scn),
+    W(w::Scn),
+    G(g::Scn),
 }
 
 #[derive(Clone, Debug, Default)]
@@ -37,6 +41,9 @@ pub fn generate(profile: &str, tier: Tier, seed: u64) -> Scenario {
         "C04" => Scenario::F(f::generate(&mut rng, tier)),
         "C05" | "C06" | "C16" | "C16-huge" | "C17" | "C08" | "C08-obst" => Scenario::R(r::generate(&mut rng, tier, profile)),
         "C07" => Scenario::R0(r0::generate(&mut rng, tier)),
+        "C02" => Scenario::G(g::generate(&mut rng, tier)),
+        "C10" => Scenario::W(w::generate(&mut rng, tier, false)),
+        "C10-hard" => Scenario::W(w::generate(&mut rng, tier, true)),
         "C15-reload" => Scenario::Reload(reload::generate(&mut rng, tier)),
         "C03" | "C15" => Scenario::L(l::generate(&mut rng, tier, profile)),
         other => panic!("unknown profile {}", other),
@@ -50,6 +57,8 @@ pub fn execute(scn: &Scenario, opts: &ExecOpts) -> Outcome {
         Scenario::R0(s) => r0::execute(s, opts),
         Scenario::L(s) => l::execute(s, opts),
         Scenario::Reload(s) => reload::execute(s, opts),
+        Scenario::W(s) => w::execute(s, opts),
+        Scenario::G(s) => g::execute(s, opts),
     }
 }
 
@@ -61,6 +70,8 @@ pub fn shrink(scn: &Scenario) -> Vec<Scenario> {
         Scenario::R0(s) => r0::shrink(s).into_iter().map(Scenario::R0).collect(),
         Scenario::L(s) => l::shrink(s).into_iter().map(Scenario::L).collect(),
         Scenario::Reload(s) => reload::shrink(s).into_iter().map(Scenario::Reload).collect(),
+        Scenario::W(s) => w::shrink(s).into_iter().map(Scenario::W).collect(),
+        Scenario::G(s) => g::shrink(s).into_iter().map(Scenario::G).collect(),
     }
 }
 
@@ -71,6 +82,8 @@ pub fn size(scn: &Scenario) -> usize {
         Scenario::R0(s) => r0::size(s),
         Scenario::L(s) => l::size(s),
         Scenario::Reload(s) => reload::size(s),
+        Scenario::W(s) => w::size(s),
+        Scenario::G(s) => g::size(s),
     }
 }
 
@@ -80,4 +93,10 @@ pub fn variants(profile: &str, scn: &Scenario, base: &Outcome) -> Vec<Scenario> 
         ("C08", Scenario::R(s)) => r::fault_variants(s, &base.summary.site_hits).into_iter().map(Scenario::R).collect(),
         _ => vec![],
     }
+}
+
+/// Scenarios that must run in a process of their own (process-global state
+/// that can be initialised only once).
+pub fn needs_fresh_process(scn: &Scenario) -> bool {
+    matches!(scn, Scenario::G(_))
 }
